@@ -226,19 +226,24 @@ class DataPath:
         return cls(*spec_resolved_parts)
 
     def to_part_specs(self):
+        """Get part specs from which `from_part_specs` re-builds this path. Parts that cannot
+        be represented faithfully (in this form) raise, rather than being approximated."""
         parts = []
-        for i in self.parts:
-            try:
-                part_spec = i.condition.callable.kwargs["value"]
-            except KeyError:
-                if isinstance(i, MapOrListValue):
-                    part_spec = i.list_condition.callable.kwargs["value"]
-                elif i.CONTAINER_TYPE is Container.MAP:
+        for part, simple_part in zip(self.parts, self.simplify()):
+            if part.label is not None:
+                raise RuntimeError(f"Cannot convert labelled part to a part spec: {part!r}.")
+            if not isinstance(simple_part, ContainerValue):
+                part_spec = simple_part  # a map key or a list index
+            elif (
+                type(part) in (MapValue, ListValue)
+                and part.condition == cnds.NullCondition()
+            ):
+                if part.CONTAINER_TYPE is Container.MAP:
                     part_spec = {"type": "map_value"}
-                elif i.CONTAINER_TYPE is Container.LIST:
-                    part_spec = {"type": "list_value"}
                 else:
-                    raise RuntimeError(f"Cannot convert part to a part spec: {i!r}.")
+                    part_spec = {"type": "list_value"}
+            else:
+                raise RuntimeError(f"Cannot convert part to a part spec: {part!r}.")
             parts.append(part_spec)
         return parts
 
